@@ -202,7 +202,25 @@ const NEAR_MISS: [&str; 10] = [
     "/v1/client/add-version/%ID%/%ID%",
 ];
 
-const TRAILING: [&str; 4] = ["/v1/client/snapshot/", "/v1/client/add-version/%ID%/", "/v1/client/get-child-version/%ID%/", "//v1/client/snapshot"];
+/// Paths a server may or may not take for a protocol route (nothing is demanded beyond "no 5xx,
+/// no crash" and, for C20, the header): trailing slashes, empty and dot segments, another case,
+/// matrix parameters, and - on the two read routes only, because they may well be served - a
+/// query string.
+const TRAILING: [&str; 13] = [
+    "/v1/client/snapshot/",
+    "/v1/client/add-version/%ID%/",
+    "/v1/client/get-child-version/%ID%/",
+    "//v1/client/snapshot",
+    "/v1//client/snapshot",
+    "/v1/./client/snapshot",
+    "/v1/client/../client/snapshot",
+    "/V1/CLIENT/snapshot",
+    "/v1/client/snapshot;v=1",
+    "/v1/client/snapshot?x=1&y=%41",
+    "/v1/client/get-child-version/%ID%?parent=%ID%",
+    "/v1/client/add-snapshot/%ID%/",
+    "/v1/client/snapshot?",
+];
 
 pub struct Built {
     pub req: HttpReq,
@@ -447,7 +465,7 @@ pub fn rawreq(n: u8) -> impl Strategy<Value = RawReq> {
         3 => Just(Route::GetSnapshot),
         1 => Just(Route::Index),
         2 => (0u8..10).prop_map(Route::NearMiss),
-        1 => (0u8..4).prop_map(Route::TrailingSlash),
+        1 => (0u8..13).prop_map(Route::TrailingSlash),
     ];
     (route, 0u8..100, 0..n, idform_header(), any_idref(n), idform_path(), ctform(), bodyform(), (any::<bool>(), prop::bool::weighted(0.15), prop_oneof![2 => Just(0u8), 1 => 1u8..crate::driver::N_EXTRA_HEADER_SETS], prop_oneof![6 => Just(0u8), 1 => 1u8..40])).prop_map(|(route, m, client, cid, idref, pid, ct, body, (announce_len, http10, extra, spell))| {
         // the right method most of the time
@@ -1115,10 +1133,11 @@ fn check_twin(tc: &TCase, st: &mut Stats) -> CheckResult {
         }
         let sl = hl.steps.last().unwrap().clone();
         let log = hh.drv.http_log.replace(vec![]).unwrap_or_default();
-        if log.len() != 1 {
+        if log.is_empty() || log.len() > 2 || (log.len() == 2 && !hh.drv.revalidate) {
             return Err(Fail::Inconclusive(format!("expected one exchange for op {idx}, saw {}", log.len())));
         }
-        let (req, resp) = &log[0];
+        // a revalidated read: the second, conditional exchange is the one that counts
+        let (req, resp) = &log[log.len() - 1];
         let own_l = sl.client;
         let own_h = hh.steps.last().unwrap().client;
         let lab_l = |id: &Uuid| hl.label_id(own_l, *id, false);
